@@ -611,6 +611,7 @@ def run(ctx, rep, tier):
 
 # ---------------------------------------------------------------------------------------------------------------- C11.w
 _HOLE = re.compile(r"\[\[(?!\[).*?\]\]")
+_GOTO_LABEL = re.compile(r"^(?!case\b|default\b)\w+\s*:$")
 
 
 def _c_skeleton(text):
@@ -677,7 +678,11 @@ def _wf_items(items, probs, in_loop=None):
                     probs.append(f"{sub.strip()!r} does not follow a closed block (previous line: {prev!r})")
             if t[-1] not in ";{}:,":
                 probs.append(f"{sub.strip()!r} is not a complete statement, block opener, label or list element")
+            if prev is not None and _GOTO_LABEL.match(prev) and t.startswith("}"):
+                probs.append(f"label {prev!r} is the last thing in its block: a label needs a statement behind it before C23 (clang: 'expected statement'; gcc accepts it as an extension only)")
             prev = t
+    if prev is not None and _GOTO_LABEL.match(prev) and in_loop is None:
+        probs.append(f"label {prev!r} can be the last line its unit emits: whatever closes the enclosing block follows it directly (a label needs a statement behind it before C23)")
     return depth, first, prev
 
 
